@@ -204,121 +204,130 @@ def indexed {α} : Nat → List α → List (Nat × α)
   | _, [] => []
   | i, a :: as => (i, a) :: indexed (i + 1) as
 
+/-- relabel a successful item (costs and errors unchanged) -/
+def mapOut {β γ} (g : β → γ) : Out β × Nat → Out γ × Nat
+  | (.ok b, n) => (.ok (g b), n)
+  | (.err f, n) => (.err f, n)
+
+/-- run `p` inside the child context `enter …` (an `enter` that raises costs nothing) -/
+def inCtx {β} (e : Out Ctx) (p : Ctx → Out β × Nat) : Out β × Nat :=
+  match e with
+  | .err f => (.err f, 0)
+  | .ok c => p c
+
 /-! ### the parser -/
 
-/-- `parse fuel c T v` — the value `v` is converted to the declared type `T` inside context `c`
-(the context of the enclosing field / element).  Returns the outcome and the number of
-leaf-converter invocations.  `fuel` bounds the recursion depth (recursive declarations). -/
-def parse (W : World) (Q : Quirks) (E : Env) : Nat → Ctx → Ty → Val → Out Res × Nat
-  | 0, _, _, _ => (.err { fuel := true }, 0)
-  | fuel + 1, c, T, v =>
-    match T with
-    | .leaf =>
-      -- the registered converter runs once (counted), whatever the value
-      match v with
-      | .tok n => if W.leafOk c.mode n then (.ok (.leaf n), 1) else (.err {}, 1)
-      | _ => (.err {}, 1)
-    | .none =>
-      -- to_null (transform.py:195-206): only None (tokens are never null-strings)
-      match v with
-      | .none => (.ok .none, 0)
-      | _ => (.err {}, 0)
-    | .data k =>
-      match E[k]? with
-      | none => (.err {}, 0)
-      | some cd =>
-        -- cls.py:558-561 → options.py:219-258: a context *without route* for the nested class,
-        -- with the class' own options; options.py:355-356 one level deeper; :372 the check
-        let d := c.depth + 1
-        if exceeded cd.maxDepth d then (.err { depth := true }, 0) else
-        let c' : Ctx := { depth := d, mode := cd.mode, md := cd.maxDepth }
-        match v with
-        | .dict kvs =>
-          -- field.py:1063 `context.enter(self.name)`: a field name is never falsy
-          let pf := fun (fv : Ty × Val) =>
-            match enter Q c' false c'.mode with
-            | .err f => (Out.err f, 0)
-            | .ok c'' => parse W Q E fuel c'' fv.1 fv.2
-          if cd.dfs then
-            -- data_first_parse (base.py:437-470): the *data* keys in input order, unknown keys dropped
-            let items := kvs.filterMap fun (kv : Key × Val) =>
-              match kv.1 with
-              | .str s => (cd.fields.lookup s).map fun t => (s, t, kv.2)
-              | .int _ => none
-            match seqM (fun (it : String × Ty × Val) =>
-                match pf (it.2.1, it.2.2) with
-                | (.ok r, n) => (Out.ok (it.1, r), n)
-                | (.err f, n) => (.err f, n)) items with
-            | (.err f, n) => (.err f, n)
-            | (.ok rs, n) =>
-              (.ok (.data k (cd.fields.map fun ft => (ft.1, (rs.lookup ft.1).getD .none))), n)
-          else
-            -- field_first_parse (base.py:538-585): the declared fields in order; absent → default None
-            match seqM (fun (ft : String × Ty) =>
-                match lookupKey (.str ft.1) kvs with
-                | none => (Out.ok (ft.1, Res.none), 0)
-                | some fv =>
-                  match pf (ft.2, fv) with
-                  | (.ok r, n) => (.ok (ft.1, r), n)
-                  | (.err f, n) => (.err f, n)) cd.fields with
-            | (.err f, n) => (.err f, n)
-            | (.ok rs, n) => (.ok (.data k rs), n)
-        -- cls.py:569-577: not a Mapping → TypeError / `to_dict` fails on scalars and None
-        | _ => (.err {}, 0)
-    | .list t =>
-      match wrapSeq c.mode v with
-      | none => (.err {}, 0)
-      | some vs =>
-        -- rule.py:1954-1955 `for i, item in enumerate(value): with context.enter(route=i)`
-        match seqM (fun (iv : Nat × Val) =>
-            match enter Q c (iv.1 == 0) c.mode with
-            | .err f => (Out.err f, 0)
-            | .ok c' => parse W Q E fuel c' t iv.2) (indexed 0 vs) with
-        | (.ok rs, n) => (.ok (.list rs), n)
-        | (.err f, n) => (.err f, n)
-    | .tuple t =>
-      match wrapSeq c.mode v with
-      | none => (.err {}, 0)
-      | some vs =>
-        match seqM (fun (iv : Nat × Val) =>
-            match enter Q c (iv.1 == 0) c.mode with
-            | .err f => (Out.err f, 0)
-            | .ok c' => parse W Q E fuel c' t iv.2) (indexed 0 vs) with
-        | (.ok rs, n) => (.ok (.tuple rs), n)
-        | (.err f, n) => (.err f, n)
-    | .dict kt t =>
+abbrev Parser := Ctx → Ty → Val → Out Res × Nat
+
+/-- items of a sequence / variable-length tuple: rule.py:1954-1955
+`for i, item in enumerate(value): with context.enter(route=i)` -/
+def parseItems (Q : Quirks) (rec : Parser) (c : Ctx) (t : Ty) (vs : List Val) : Out (List Res) × Nat :=
+  seqM (fun (iv : Nat × Val) => inCtx (enter Q c (iv.1 == 0) c.mode) fun c' => rec c' t iv.2) (indexed 0 vs)
+
+/-- field.py:1063 `context.enter(self.name)`: a field name is never falsy -/
+def parseField (Q : Quirks) (rec : Parser) (c : Ctx) (t : Ty) (v : Val) : Out Res × Nat :=
+  inCtx (enter Q c false c.mode) fun c' => rec c' t v
+
+/-- field_first_parse (base.py:538-585): the declared fields in order; absent → default None -/
+def parseFF (Q : Quirks) (rec : Parser) (c : Ctx) (fields : List (String × Ty)) (kvs : List (Key × Val)) :
+    Out (List (String × Res)) × Nat :=
+  seqM (fun (ft : String × Ty) =>
+    match lookupKey (.str ft.1) kvs with
+    | none => (Out.ok (ft.1, Res.none), 0)
+    | some fv => mapOut (fun r => (ft.1, r)) (parseField Q rec c ft.2 fv)) fields
+
+/-- a Python mapping holds every key once: later duplicates of a key (which only the list
+representation can express) are not items of the mapping -/
+def dedupFst {α} : List (String × α) → List (String × α)
+  | [] => []
+  | x :: xs => x :: (dedupFst xs).filter (fun y => y.1 != x.1)
+
+/-- the known fields among the data keys, in input order (unknown keys are dropped: addition=None) -/
+def knownItems (fields : List (String × Ty)) (kvs : List (Key × Val)) : List (String × Ty × Val) :=
+  dedupFst (kvs.filterMap fun (kv : Key × Val) =>
+    match kv.1 with
+    | .str s => (fields.lookup s).map fun t => (s, t, kv.2)
+    | .int _ => none)
+
+/-- data_first_parse (base.py:437-470): the *data* keys in input order; then defaults -/
+def parseDF (Q : Quirks) (rec : Parser) (c : Ctx) (fields : List (String × Ty)) (kvs : List (Key × Val)) :
+    Out (List (String × Res)) × Nat :=
+  mapOut (fun rs => fields.map fun ft => (ft.1, (rs.lookup ft.1).getD Res.none))
+    (seqM (fun (it : String × Ty × Val) => mapOut (fun r => (it.1, r)) (parseField Q rec c it.2.1 it.2.2))
+      (knownItems fields kvs))
+
+/-- rule.py:1992-2013: key context route `f"{key}<key>"` (never falsy; keys of the declared key type
+pass by the exact-type shortcut), value context route = the key itself -/
+def parseEntries (Q : Quirks) (rec : Parser) (c : Ctx) (kt : KeyTy) (t : Ty) (kvs : List (Key × Val)) :
+    Out (List (Key × Res)) × Nat :=
+  seqM (fun (kv : Key × Val) =>
+    if !kt.admits kv.1 then (Out.err {}, 0) else
+    mapOut (fun r => (kv.1, r)) (inCtx (enter Q c kv.1.falsy c.mode) fun c' => rec c' t kv.2)) kvs
+
+/-- one union stage under the preferences `m`: rule.py:387/403/415 `context.enter('|', options=…)`
+(the route '|' is truthy) -/
+def unionStage (Q : Quirks) (rec : Parser) (c : Ctx) (ts : List Ty) (v : Val) (m : Mode) (f : Flags) :
+    Out Res × Nat :=
+  tryAll (fun t => inCtx (enter Q c false m) fun c' => rec c' t v) ts f
+
+/-- the staged union retries, rule.py:376-424 -/
+def parseUnion (Q : Quirks) (rec : Parser) (c : Ctx) (ts : List Ty) (v : Val) : Out Res × Nat :=
+  -- :377-380 stage 1: `type(value) == con` — only None/NoneType in this fragment
+  if isNoneVal v && hasNone ts then (.ok .none, 0) else
+  -- :383 stage 2 (strict) unless the context is already strict
+  orElse (if !c.mode.noLoss || !c.mode.noCast then unionStage Q rec c ts v Mode.strict {} else (.err {}, 0)) fun f =>
+  -- :399 stage 3 (no data loss) only from a fully lenient context
+  orElse (if !c.mode.noLoss && !c.mode.noCast then unionStage Q rec c ts v ⟨true, c.mode.noCast⟩ f else (.err f, 0)) fun f =>
+  -- :414 stage 4: the context's own preferences
+  unionStage Q rec c ts v c.mode f
+
+/-- one layer of conversion: the value `v` is converted to the declared type `T` inside context `c`
+(the context of the enclosing field / element); `rec` converts the parts. -/
+def step (W : World) (Q : Quirks) (E : Env) (rec : Parser) (c : Ctx) (T : Ty) (v : Val) : Out Res × Nat :=
+  match T with
+  | .leaf =>
+    -- the registered converter runs once (counted), whatever the value
+    match v with
+    | .tok n => if W.leafOk c.mode n then (.ok (.leaf n), 1) else (.err {}, 1)
+    | _ => (.err {}, 1)
+  | .none =>
+    -- to_null (transform.py:195-206): only None (tokens are never null-strings)
+    match v with
+    | .none => (.ok .none, 0)
+    | _ => (.err {}, 0)
+  | .data k =>
+    match E[k]? with
+    | none => (.err {}, 0)
+    | some cd =>
+      -- cls.py:558-561 → options.py:219-258: a context *without route* for the nested class,
+      -- with the class' own options; options.py:355-358 one level deeper; :374 the check
+      if exceeded cd.maxDepth (c.depth + 1) then (.err { depth := true }, 0) else
+      let c' : Ctx := { depth := c.depth + 1, mode := cd.mode, md := cd.maxDepth }
       match v with
       | .dict kvs =>
-        -- rule.py:1992-2013: key context route `f"{key}<key>"` (never falsy; keys of the declared
-        -- key type pass by the exact-type shortcut), value context route = the key itself
-        match seqM (fun (kv : Key × Val) =>
-            if !kt.admits kv.1 then (Out.err {}, 0) else
-            match enter Q c kv.1.falsy c.mode with
-            | .err f => (Out.err f, 0)
-            | .ok c' =>
-              match parse W Q E fuel c' t kv.2 with
-              | (.ok r, n) => (.ok (kv.1, r), n)
-              | (.err f, n) => (.err f, n)) kvs with
-        | (.ok rs, n) => (.ok (.dict rs), n)
-        | (.err f, n) => (.err f, n)
-      -- to_dict on a scalar / None raises (transform.py:311-386)
+        mapOut (Res.data k) (if cd.dfs then parseDF Q rec c' cd.fields kvs else parseFF Q rec c' cd.fields kvs)
+      -- cls.py:569-577: not a Mapping → TypeError / `to_dict` fails on scalars and None
       | _ => (.err {}, 0)
-    | .union ts =>
-      -- rule.py:377-380 stage 1: `type(value) == con` — only None/NoneType in this fragment
-      if isNoneVal v && hasNone ts then (.ok .none, 0) else
-      let stage := fun (m : Mode) (f : Flags) =>
-        tryAll (fun t =>
-          -- rule.py:387/403/415 `context.enter('|', options=…)`: route '|' is truthy
-          match enter Q c false m with
-          | .err g => (Out.err g, 0)
-          | .ok c' => parse W Q E fuel c' t v) ts f
-      -- rule.py:383 stage 2 (strict) unless the context is already strict
-      let s2 := if !c.mode.noLoss || !c.mode.noCast then stage Mode.strict {} else (.err {}, 0)
-      -- rule.py:399 stage 3 (no data loss) only from a fully lenient context
-      orElse s2 fun f =>
-      orElse (if !c.mode.noLoss && !c.mode.noCast then stage ⟨true, c.mode.noCast⟩ f else (.err f, 0)) fun f =>
-      -- rule.py:414 stage 4: the context's own preferences
-      stage c.mode f
+  | .list t =>
+    match wrapSeq c.mode v with
+    | none => (.err {}, 0)
+    | some vs => mapOut Res.list (parseItems Q rec c t vs)
+  | .tuple t =>
+    match wrapSeq c.mode v with
+    | none => (.err {}, 0)
+    | some vs => mapOut Res.tuple (parseItems Q rec c t vs)
+  | .dict kt t =>
+    match v with
+    | .dict kvs => mapOut Res.dict (parseEntries Q rec c kt t kvs)
+    -- to_dict on a scalar / None raises (transform.py:311-386)
+    | _ => (.err {}, 0)
+  | .union ts => parseUnion Q rec c ts v
+
+/-- `parse fuel c T v` — outcome and number of leaf-converter invocations.  `fuel` bounds the
+recursion depth (recursive declarations); the driver runs with far more than any case needs. -/
+def parse (W : World) (Q : Quirks) (E : Env) : Nat → Parser
+  | 0 => fun _ _ _ => (.err { fuel := true }, 0)
+  | fuel + 1 => step W Q E (parse W Q E fuel)
 
 /-- entry points.  `viaTransform = false`: `K(**data)` / `K.__from__(data)` — the class' own root
 context.  `true`: `type_transform(data, K)` — a class-less root context (options.py:725) from
@@ -350,18 +359,16 @@ def rdepthK : List (Key × Res) → Nat
   | (_, r) :: rs => max (rdepth r) (rdepthK rs)
 end
 
-def limitOf (E : Env) (k : Nat) : Option Nat :=
-  match E[k]? with
-  | some cd => cd.maxDepth
-  | none => none
-
 mutual
 /-- every data-class instance of the result sits at a nesting level its class allows
 (`n` = number of data-class levels above) -/
 def within (E : Env) : Nat → Res → Bool
   | _, .leaf _ => true
   | _, .none => true
-  | n, .data k fs => !exceeded (limitOf E k) (n + 1) && withinF E (n + 1) fs
+  | n, .data k fs =>
+    (match E[k]? with
+     | some cd => !exceeded cd.maxDepth (n + 1)
+     | none => false) && withinF E (n + 1) fs
   | n, .list rs => withinL E n rs
   | n, .tuple rs => withinL E n rs
   | n, .dict kvs => withinK E n kvs
